@@ -61,8 +61,10 @@ void iobuffer::export_buffer(FILE *fout, bool ispadding)
   WENCRY_VERIF_SCOPE(WV_IO_EXPORT, this);
   if (isfinal)
   {
-    u8_t padding = ispadding ? 0 : b[now - 1][15];
-    fwrite(b, 1, (now << 4) - padding, fout);
+    // the pad length comes from the data (decryption): never look in front of the buffer, never write a negative length
+    const size_t len = (size_t)now << 4;
+    const size_t padding = (ispadding || now == 0) ? 0 : b[now - 1][15];
+    fwrite(b, 1, padding <= len ? len - padding : 0, fout);
   }
   else
     fwrite(b, 1, sum, fout);
